@@ -27,9 +27,18 @@ def rel_of(path: str, seed: int) -> str:
     return r
 
 
-def corpus_programs(tier: str) -> List[str]:
+def _only_ok(d: str, pid) -> bool:
+    # a program written for one known defect may be restricted to the concerns it is meant for (file ONLY in its directory):
+    # emitted code that does not type-check would otherwise make every other concern inconclusive
+    f = os.path.join(d, 'ONLY')
+    return pid is None or not os.path.exists(f) or pid in open(f).read().split()
+
+
+def corpus_programs(tier: str, pid=None) -> List[str]:
     out = []
     for d in sorted(glob.glob(os.path.join(CORPUS, 'p*'))):
+        if not _only_ok(d, pid):
+            continue
         starts = [f for f in sorted(glob.glob(os.path.join(d, '*')))
                   if f.endswith('.wsdl') or (f.endswith('.xsd') and not any(g.endswith('.wsdl') for g in glob.glob(os.path.join(d, '*')))
                                              and os.path.basename(f) in ('main.xsd',) or (f.endswith('.xsd') and len(glob.glob(os.path.join(d, '*'))) == 1))]
@@ -49,7 +58,7 @@ def generated_programs(tier: str, seed: int) -> List[str]:
 
 def run_concern(pid: str, tier: str, seed: int, runs=None) -> dict:
     t0 = time.time()
-    progs = corpus_programs(tier) + generated_programs(tier, seed)
+    progs = corpus_programs(tier, pid) + generated_programs(tier, seed)
     wsdl_only = pid == 'C05'
     models: Dict[str, M.Model] = {}
     skipped = []
@@ -243,7 +252,7 @@ def ns_decl_checks(em, m) -> list:
 def run_c10(pid: str, tier: str, seed: int, runs=None) -> dict:
     from ..l3.specgen import Emitted
     t0 = time.time()
-    progs = corpus_programs(tier) + generated_programs(tier, seed)
+    progs = corpus_programs(tier, pid) + generated_programs(tier, seed)
     models, skipped = {}, []
     for p in progs:
         try:
